@@ -268,6 +268,33 @@ def point_set(spec):
         pts = np.vstack([blob(0.2, 0.03, 2 * n_min), blob(0.5, 0.03, 2 * n_min + 1), blob(0.8, 0.03, 2 * n_min + 2)])
     elif kind == 'four':
         pts = np.vstack([blob(c, 0.02, 2 * n_min + i) for i, c in enumerate((0.15, 0.4, 0.65, 0.88))])
+    elif kind in ('discs', 'bigdiscs'):    # two separated *uniform* discs of different size: splitting a uniform disc gains no volume
+        def disc(c, r, n):
+            ang = rng.random(n) * 2 * np.pi
+            rad = r * np.sqrt(rng.random(n))
+            d = np.zeros((n, n_dim)) + 0.5
+            d[:, 0] = c[0] + rad * np.cos(ang)
+            d[:, 1] = c[1] + rad * np.sin(ang)
+            return d
+        big = kind == 'bigdiscs'
+        pts = np.vstack([disc((0.3, 0.3), 0.22, (30 if big else 8) * n_min), disc((0.78, 0.75), 0.11, (16 if big else 5) * n_min)])
+    elif kind == 'sparse_dense':   # a sparse, unsplittable cluster next to two dense ones
+        sparse = 0.05 + 0.35 * rng.random((n_min + 2, n_dim))
+        pts = np.vstack([sparse, blob(0.7, 0.012, 2 * n_min + 2) + np.array([0.0, -0.2] + [0.0] * (n_dim - 2)),
+                         blob(0.75, 0.012, 2 * n_min + 3) + np.array([0.0, 0.15] + [0.0] * (n_dim - 2))])
+        pts = np.clip(pts, 0.001, 0.999)
+    elif kind == 'random':
+        k = int(rng.integers(1, 5))
+        parts = []
+        for _ in range(k):
+            n = int(rng.integers(n_min, 4 * n_min))
+            c = 0.15 + 0.7 * rng.random(n_dim)
+            w = float(rng.choice([0.01, 0.03, 0.08]))
+            parts.append(np.clip(c + (rng.normal(0, w, (n, n_dim)) if rng.random() < 0.5 else
+                                      w * 2 * (rng.random((n, n_dim)) - 0.5)), 0.001, 0.999))
+        pts = np.vstack(parts)
+        if len(pts) < n_dim + 2:
+            pts = np.vstack([pts, blob(0.5, 0.05, n_dim + 2)])
     else:
         raise ValueError(kind)
     return pts
@@ -316,13 +343,16 @@ def run(chk):
     # fixed corpus first (point sets on which the pinned code violated the property: D6 and D2)
     specs = [('uneven', 2, 7, 5, 'E'), ('uneven', 2, 7, 27, 'E'),
              ('one', 2, 6, 100 + s, 'E'), ('two', 2, 6, 200 + s, 'E'), ('uneven', 2, 6, 28 + s, 'E'),
-             ('three', 2, 5, 300 + s, 'E'), ('two', 3, 6, 400 + s, 'M'), ('three', 2, 5, 500 + s, 'M')]
+             ('three', 2, 5, 300 + s, 'E'), ('two', 3, 6, 400 + s, 'M'), ('three', 2, 5, 500 + s, 'M'),
+             ('discs', 2, 5, 900 + s, 'E'), ('discs', 2, 4, 901 + s, 'M'), ('bigdiscs', 2, 5, 920 + s, 'E'), ('sparse_dense', 2, 5, 910 + s, 'E'),
+             ('sparse_dense', 2, 6, 911 + s, 'E'), ('sparse_dense', 3, 5, 912 + s, 'M')]
+    specs += [('random', 2, int(4 + (j % 3)), 1000 + 10 * s + j, 'E' if j % 3 else 'M') for j in range(6)]
     if chk.tier == 'thorough':
         specs += [('four', 2, 4, 600 + s, 'E'), ('uneven', 2, 7, 29 + s, 'M'), ('one', 4, 8, 700 + s, 'E'),
                   ('four', 3, 5, 800 + s, 'M')]
     tasks = []
     for spec in specs:
-        d = depth if spec[0] != 'four' else depth - 1
+        d = depth if spec[0] not in ('four', 'bigdiscs') else depth - 1
         for l in LETTERS:
             if l == 'S0' and spec[4] != 'E':
                 continue
